@@ -7,7 +7,7 @@ Import ListNotations.
 From NV Require Import Crash.Outcome Crash.NumOps Crash.NumOpsProofs Crash.Index Crash.IndexProofs
   Crash.Lexer Crash.LexerProofs Crash.Span Crash.SpanProofs Crash.NameReg Crash.NameRegProofs
   Crash.Defects Crash.MergeDispatch Crash.MergeDispatchProofs Crash.TomlFloats Crash.TomlFloatsProofs
-  Crash.Ledger Gen.PanicSites.
+  Crash.TypePos Crash.TypePosProofs Crash.Ledger Gen.PanicSites.
 
 (* ---------------------------------------------------------------- (a) number primops *)
 Theorem C10_no_panic_div : forall n1 n2, no_panic (op_div n1 n2).
@@ -176,6 +176,22 @@ Proof. exact convert_item_ok. Qed.
 Theorem C10_toml_check_needs_inline_arm : exists v site,
   check_value_no_inline v = true /\ convert_value v = Panic site.
 Proof. exact check_without_inline_arm_is_unsound. Qed.
+
+(* ---------------------------------------------------------------- annotation types have a position *)
+Theorem C10_annot_positions_set : forall fuel t,
+  pos_of (annot_fix_then_pos fuel t) = true /\ pos_of (annot_pos_then_fix fuel t) = true.
+Proof. exact annot_positions_set. Qed.
+
+Theorem C10_no_panic_labeled_type : forall fuel t,
+  no_panic (labeled_type_from_ast (annot_fix_then_pos fuel t)) /\
+  no_panic (labeled_type_from_ast (annot_pos_then_fix fuel t)).
+Proof. exact no_panic_labeled_type. Qed.
+
+(* a rebuilt node that drops its position breaks exactly the record-field order *)
+Theorem C10_rebuilt_type_needs_position : exists t site,
+  labeled_type_from_ast (fixed_enum_drops_pos 3 (with_pos t)) = Panic site
+  /\ pos_of (with_pos (fixed_enum_drops_pos 3 t)) = true.
+Proof. exact enum_without_build_fixed_panics. Qed.
 
 (* ---------------------------------------------------------------- the ledger *)
 Theorem C10_sites_all_covered : forall key line, In (key, line) sites -> exists c, In (key, c) ledger.
